@@ -89,6 +89,33 @@ M = [
   "            let peers = self.network.peer_lock.read().await;\n            let _configs = self.network.config_lock.read().await;\n            let peer = peers.find_peer_by_index(peer_index);\n            if peer.is_none() || peer.unwrap().public_key.is_none() {"),
  ("C20-eq-drop-order-swapped", C + "io/network.rs",
   "        drop(blockchain);\n        drop(configs);", "        drop(configs);\n        drop(blockchain);"),
+ # ---------------- more behaviour-preserving edits (must stay silent)
+ ("C10-eq-slip-length-two-sided", C + "consensus/slip.rs",
+  "        if bytes.len() != SLIP_SIZE {", "        if bytes.len() < SLIP_SIZE || bytes.len() > SLIP_SIZE {"),
+ ("C11-eq-let-else-guards", C + "routing_thread.rs",
+  "            let peer = peers.find_peer_by_index(peer_index);\n            if peer.is_none() || peer.unwrap().public_key.is_none() {\n                // the peer is unknown or has not completed the handshake yet\n                warn!(\n                    \"ignoring ghost chain request from peer : {:?} without a verified key\",\n                    peer_index\n                );\n                return;\n            }\n            let peer = peer.unwrap();\n            peer_key_list.push(peer.public_key.unwrap());",
+  "            let Some(peer) = peers.find_peer_by_index(peer_index) else {\n                warn!(\"ignoring ghost chain request from unknown peer : {:?}\", peer_index);\n                return;\n            };\n            let Some(peer_public_key) = peer.public_key else {\n                warn!(\"ignoring ghost chain request from peer : {:?} without a verified key\", peer_index);\n                return;\n            };\n            peer_key_list.push(peer_public_key);"),
+ ("C17-eq-compare-with-false", C + "consensus/peers/peer.rs",
+  "        let result = verify(&sent_challenge, &response.signature, &response.public_key);\n        if !result {", "        let signature_ok = verify(&sent_challenge, &response.signature, &response.public_key);\n        if signature_ok == false {"),
+ ("C08-eq-flipped-work-test", C + "consensus/block.rs",
+  "            if self.total_work < amount_of_routing_work_needed {", "            if amount_of_routing_work_needed > self.total_work {"),
+ ("C13-eq-nested-ifs", C + "consensus/block.rs",
+  "        if validate_against_utxo && cv.total_rebroadcast_slips != self.total_rebroadcast_slips {", "        if validate_against_utxo && !(cv.total_rebroadcast_slips == self.total_rebroadcast_slips) {"),
+ ("C02-eq-explicit-checked-loop", C + "consensus/transaction.rs",
+  "        self.cumulative_fees = cumulative_fees.saturating_add(self.total_fees);", "        self.cumulative_fees = cumulative_fees\n            .checked_add(self.total_fees)\n            .unwrap_or(Currency::MAX);"),
+ ("C07-eq-through-local", C + "consensus/block.rs",
+  "        block.avg_payout_mining = cv.avg_payout_mining;", "        let avg_payout_mining = cv.avg_payout_mining;\n        block.avg_payout_mining = avg_payout_mining;"),
+ ("C04-eq-undo-before-flag-reset", C + "consensus/blockchain.rs",
+  "                self.blocks.get_mut(&block_hash).unwrap().in_longest_chain = false;\n                self.add_block_failure(&block_hash, mempool).await;\n                AddBlockResult::FailedNotValid",
+  "                self.add_block_failure(&block_hash, mempool).await;\n                AddBlockResult::FailedNotValid"),
+ ("C03-eq-wallet-after-utxo", C + "consensus/blockchain.rs",
+  "            {\n                let mut wallet = self.wallet_lock.write().await;\n\n                wallet_updated |= wallet.on_chain_reorganization(\n                    block,\n                    true,\n                    configs.get_consensus_config().unwrap().genesis_period,\n                );\n            }\n            let block_id = block.id;",
+  "            let block_id = block.id;\n            {\n                let mut wallet = self.wallet_lock.write().await;\n\n                wallet_updated |= wallet.on_chain_reorganization(\n                    block,\n                    true,\n                    configs.get_consensus_config().unwrap().genesis_period,\n                );\n            }"),
+ ("C09-eq-reads-reordered", C + "consensus/block.rs",
+  "        let graveyard: Currency = Currency::from_be_bytes(bytes[181..189].try_into().unwrap());\n        let treasury: Currency = Currency::from_be_bytes(bytes[189..197].try_into().unwrap());",
+  "        let treasury: Currency = Currency::from_be_bytes(bytes[189..197].try_into().unwrap());\n        let graveyard: Currency = Currency::from_be_bytes(bytes[181..189].try_into().unwrap());"),
+ ("C20-eq-configs-guard-dropped-early", C + "io/network.rs",
+  "        drop(blockchain);\n        drop(configs);", "        drop(configs);\n        drop(blockchain);\n        tokio::task::yield_now().await;"),
 ]
 
 def main():
